@@ -3,12 +3,10 @@
 use crate::xz::reader::verif_xz_reader_api as rd;
 use crate::{EncodeMode, MFType, Read};
 
-// SHA-256 is kept out of the symbolic choice: constructing/dropping sha2's state alone costs several GB in CBMC
-// (measured OOM at 4.5 GB); it has its own concrete harness.
-fn any_check() -> CheckType {
-    let k: u8 = kani::any();
-    kani::assume(k < 3);
-    match k { 0 => CheckType::None, 1 => CheckType::Crc32, _ => CheckType::Crc64 }
+// The check type is CONCRETE per harness: with a symbolic CheckType CBMC has to carry every ChecksumCalculator variant
+// through each call (sha2's compression function alone costs several GB; measured OOM at 13 GB).
+fn ck(k: u8) -> CheckType {
+    match k { 0 => CheckType::None, 1 => CheckType::Crc32, 4 => CheckType::Crc64, _ => CheckType::Sha256 }
 }
 
 fn check_size(c: CheckType) -> u64 {
@@ -29,11 +27,8 @@ fn crc32_of(a: &[u8]) -> u32 {
 }
 
 // C02-E / C03-B: stream header bytes = spec layout, and the crate's parser accepts them with the same check type.
-//@ {"name":"c02e_stream_header_rt","props":["C02","C03"],"obligation":"C02-E","timeout":600,"functions":["xz::writer::XZWriter::new","xz::writer::XZWriter::write_stream_header","xz::reader::StreamHeader::parse"],"bounds":"check type symbolic over None/CRC32/CRC64; unwind 14","assumes":[]}
-#[kani::proof]
-#[kani::unwind(14)]
-fn c02e_stream_header_rt() {
-    let ct = any_check();
+//@ {"name":"c02e_stream_header_rt","props":["C02","C03"],"obligation":"C02-E","timeout":600,"functions":["xz::writer::XZWriter::new","xz::writer::XZWriter::write_stream_header","xz::reader::StreamHeader::parse"],"bounds":"check type CRC32 (concrete); unwind 14","assumes":[]}
+fn stream_header_rt(ct: CheckType) {
     let mut w = XZWriter::new(Sink::<16>::new(), opts(ct, 4096)).unwrap();
     assert!(w.write_stream_header().is_ok());
     assert!(w.compressed_bytes_written.get() == 12);
@@ -53,10 +48,24 @@ fn c02e_stream_header_rt() {
     assert!(r.is_ok() && r.unwrap() == ct as u8, "C02-E: own stream header not accepted by own parser");
     // writing it twice is a no-op
     assert!(w.write_stream_header().is_ok() && w.compressed_bytes_written.get() == 12);
-    kani::cover!(ct as u8 == 4, "crc64");
-    kani::cover!(ct as u8 == 0, "no check");
+    kani::cover!(true, "end reached");
     core::mem::forget(w);
 }
+#[kani::proof]
+#[kani::unwind(14)]
+fn c02e_stream_header_rt() { stream_header_rt(ck(1)); }
+//@ {"name":"c02e_stream_header_rt_crc64","props":["C02","C03"],"obligation":"C02-E","timeout":600,"functions":["xz::writer::XZWriter::new","xz::writer::XZWriter::write_stream_header","xz::reader::StreamHeader::parse"],"bounds":"check type CRC64 (concrete); unwind 14","assumes":[]}
+#[kani::proof]
+#[kani::unwind(14)]
+fn c02e_stream_header_rt_crc64() { stream_header_rt(ck(4)); }
+//@ {"name":"c02e_stream_header_rt_none","props":["C02","C03"],"obligation":"C02-E","timeout":600,"functions":["xz::writer::XZWriter::new","xz::writer::XZWriter::write_stream_header","xz::reader::StreamHeader::parse"],"bounds":"check type None (concrete); unwind 14","assumes":[]}
+#[kani::proof]
+#[kani::unwind(14)]
+fn c02e_stream_header_rt_none() { stream_header_rt(ck(0)); }
+//@ {"name":"c02e_stream_header_rt_sha256","props":["C02","C03"],"tier":"thorough","obligation":"C02-E","timeout":1800,"mem_gb":13,"functions":["xz::writer::XZWriter::new","xz::writer::XZWriter::write_stream_header","xz::reader::StreamHeader::parse"],"bounds":"check type SHA-256 (concrete); unwind 14","assumes":[]}
+#[kani::proof]
+#[kani::unwind(14)]
+fn c02e_stream_header_rt_sha256() { stream_header_rt(ck(10)); }
 
 fn spec_dict_size(prop: u8) -> u64 {
     if prop == 40 { 0xFFFF_FFFF } else { ((2 | (prop as u64 & 1)) << (prop as u64 / 2 + 11)) }
@@ -86,19 +95,12 @@ fn c02c_xz_dict_prop_covers() {
     core::mem::forget(w);
 }
 
-fn any_prefilter(valid_only: bool) -> FilterConfig {
-    let k: u8 = kani::any();
-    kani::assume(k < 9);
-    let ft = match k {
+fn ftype(k: u8) -> FilterType {
+    match k {
         0 => FilterType::Delta, 1 => FilterType::BcjX86, 2 => FilterType::BcjPPC, 3 => FilterType::BcjIA64,
         4 => FilterType::BcjARM, 5 => FilterType::BcjARMThumb, 6 => FilterType::BcjSPARC, 7 => FilterType::BcjARM64,
         _ => FilterType::BcjRISCV,
-    };
-    let p: u32 = kani::any();
-    if valid_only {
-        kani::assume(filter_valid(ft, p));
     }
-    FilterConfig { filter_type: ft, property: p }
 }
 
 fn bcj_alignment(ft: FilterType) -> u32 {
@@ -118,16 +120,23 @@ fn filter_valid(ft: FilterType, p: u32) -> bool {
     }
 }
 
-fn block_header_rt(nfilters: usize, valid_only: bool) {
-    let dict: u32 = kani::any();
+// One pre-filter of CONCRETE type `k` (the type decides the header layout) with a SYMBOLIC property, in front of
+// LZMA2 with a concrete 4 KiB dictionary (the dictionary property is covered for every value by c02c / rt_0).
+fn block_header_rt(k: Option<u8>, valid_only: bool, dict_symbolic: bool) {
+    let dict: u32 = if dict_symbolic { kani::any() } else { 4096 };
     kani::assume(dict >= 4096 && dict <= 0xC000_0000);
     let mut o = opts(CheckType::Crc32, dict);
-    let f0 = any_prefilter(valid_only);
-    let f1 = any_prefilter(valid_only);
-    if nfilters >= 1 { o.filters.push(f0.clone()); }
-    if nfilters >= 2 { o.filters.push(f1.clone()); }
-    let w = XZWriter::new(Sink::<40>::new(), o);
-    let all_valid = (nfilters < 1 || filter_valid(f0.filter_type, f0.property)) && (nfilters < 2 || filter_valid(f1.filter_type, f1.property));
+    let p: u32 = kani::any();
+    let nfilters = if k.is_some() { 1 } else { 0 };
+    let ft = ftype(k.unwrap_or(0));
+    if k.is_some() {
+        if valid_only {
+            kani::assume(filter_valid(ft, p));
+        }
+        o.filters.push(FilterConfig { filter_type: ft, property: p });
+    }
+    let all_valid = k.is_none() || filter_valid(ft, p);
+    let w = XZWriter::new(Sink::<24>::new(), o);
     let mut w = match w {
         Ok(w) => w,
         Err(_) => {
@@ -143,50 +152,112 @@ fn block_header_rt(nfilters: usize, valid_only: bool) {
         return;
     }
     let (bytes, len) = { let s = w.original_writer.borrow(); (s.buf, s.len) };
-    assert!(len % 4 == 0 && len >= 12 && len <= 40);
+    assert!(len % 4 == 0 && len >= 12 && len <= 24);
     assert!(bytes[0] as usize == len / 4 - 1, "C03-B: block header size byte wrong");
     assert!(bytes[1] as usize == nfilters, "C03-B: block flags: filter count / reserved bits");
-    let mut src = Src::<40>::new(bytes, len);
+    let mut src = Src::<24>::new(bytes, len);
     let parsed = rd::parse_block_header(&mut src);
     // C19-B: whatever XZWriter accepted must be accepted by the reader with the same effective parameters
     assert!(parsed.is_ok(), "C19-B: block header written without error is rejected by the crate's own reader");
     let (filters, props, cs, us) = parsed.unwrap().unwrap();
     assert!(src.pos == len);
     assert!(cs.is_none() && us.is_none());
-    if nfilters >= 1 {
-        assert!(filters[0] == Some(f0.filter_type) && props[0] == f0.property, "C02-D: first pre-filter not preserved");
-    }
-    if nfilters >= 2 {
-        assert!(filters[1] == Some(f1.filter_type) && props[1] == f1.property, "C02-D: second pre-filter not preserved");
+    if nfilters == 1 {
+        assert!(filters[0] == Some(ft) && props[0] == p, "C02-D / C19-B: pre-filter parameters not preserved by the header");
     }
     assert!(filters[nfilters] == Some(FilterType::LZMA2));
     assert!(props[nfilters] >= dict, "C02-C: parsed dictionary smaller than the encoder's");
-    assert!(nfilters == 3 || filters[nfilters + 1].is_none());
-    kani::cover!(nfilters >= 1 && f0.filter_type == FilterType::Delta && f0.property == 256, "delta distance 256");
-    kani::cover!(nfilters >= 1 && f0.filter_type == FilterType::BcjIA64 && f0.property != 0, "ia64 with start offset");
+    assert!(filters[nfilters + 1].is_none());
+    kani::cover!(nfilters == 1 && p != 0, "non-default filter property");
     kani::cover!(true, "end reached");
     core::mem::forget(w);
 }
 
-//@ {"name":"c02d_block_header_rt_0","props":["C02","C03"],"obligation":"C02-D","timeout":1200,"mem_gb":9,"functions":["xz::writer::XZWriter::new","xz::writer::XZWriter::write_block_header","xz::writer::XZWriter::encode_lzma2_dict_size","xz::reader::BlockHeader::parse"],"bounds":"no pre-filter; dict_size any value in [4096, 3 GiB]; unwind 42","assumes":[]}
+//@ {"name":"c02d_block_header_rt_0","props":["C02","C03"],"obligation":"C02-D","timeout":1800,"mem_gb":9,"functions":["xz::writer::XZWriter::new","xz::writer::XZWriter::write_block_header","xz::writer::XZWriter::encode_lzma2_dict_size","xz::reader::BlockHeader::parse"],"bounds":"no pre-filter; dict_size any value in [4096, 3 GiB]; unwind 42","assumes":[]}
 #[kani::proof]
 #[kani::unwind(42)]
-fn c02d_block_header_rt_0() { block_header_rt(0, true); }
+fn c02d_block_header_rt_0() { block_header_rt(None, true, true); }
 
-//@ {"name":"c02d_block_header_rt_1","props":["C02","C03"],"obligation":"C02-D","timeout":2400,"mem_gb":13,"functions":["xz::writer::XZWriter::new","xz::writer::XZWriter::write_block_header","xz::reader::BlockHeader::parse"],"bounds":"one pre-filter: type symbolic over the 9 pre-filter types, property any VALID u32 (delta 1..=256, BCJ offset aligned); dict_size any value in [4096, 3 GiB]; unwind 42","assumes":["filter parameters inside their documented ranges"]}
+//@ {"name":"c02d_block_header_rt_delta","props":["C02","C03"],"tier":"thorough","obligation":"C02-D","timeout":1800,"mem_gb":9,"functions":["xz::writer::XZWriter::new","xz::writer::XZWriter::write_block_header","xz::reader::BlockHeader::parse"],"bounds":"one Delta pre-filter, property any VALID u32 (delta 1..=256 / BCJ offset aligned); LZMA2 dict 4096; unwind 42","assumes":["filter parameter inside its documented range"]}
 #[kani::proof]
 #[kani::unwind(42)]
-fn c02d_block_header_rt_1() { block_header_rt(1, true); }
+fn c02d_block_header_rt_delta() { block_header_rt(Some(0), true, false); }
+//@ {"name":"c19b_block_header_any_delta","props":["C19"],"tier":"thorough","obligation":"C19-B","timeout":1800,"mem_gb":9,"functions":["xz::writer::XZWriter::new","xz::writer::XZWriter::write_block_header","xz::reader::BlockHeader::parse"],"bounds":"one Delta pre-filter, property ANY u32 (including out-of-range values); LZMA2 dict 4096; unwind 42","assumes":[]}
+#[kani::proof]
+#[kani::unwind(42)]
+fn c19b_block_header_any_delta() { block_header_rt(Some(0), false, false); }
 
-//@ {"name":"c19b_block_header_any_options_1","props":["C19"],"obligation":"C19-B","timeout":2400,"mem_gb":13,"functions":["xz::writer::XZWriter::new","xz::writer::XZWriter::write_block_header","xz::reader::BlockHeader::parse"],"bounds":"one pre-filter: type symbolic over the 9 pre-filter types, property ANY u32 (including delta 0 / >256, unaligned BCJ offsets); dict_size in [4096, 3 GiB]; unwind 42","assumes":[]}
+//@ {"name":"c02d_block_header_rt_arm","props":["C02","C03"],"tier":"thorough","obligation":"C02-D","timeout":1800,"mem_gb":9,"functions":["xz::writer::XZWriter::new","xz::writer::XZWriter::write_block_header","xz::reader::BlockHeader::parse"],"bounds":"one BCJ ARM pre-filter, property any VALID u32 (delta 1..=256 / BCJ offset aligned); LZMA2 dict 4096; unwind 42","assumes":["filter parameter inside its documented range"]}
 #[kani::proof]
 #[kani::unwind(42)]
-fn c19b_block_header_any_options_1() { block_header_rt(1, false); }
+fn c02d_block_header_rt_arm() { block_header_rt(Some(4), true, false); }
+//@ {"name":"c19b_block_header_any_arm","props":["C19"],"tier":"thorough","obligation":"C19-B","timeout":1800,"mem_gb":9,"functions":["xz::writer::XZWriter::new","xz::writer::XZWriter::write_block_header","xz::reader::BlockHeader::parse"],"bounds":"one BCJ ARM pre-filter, property ANY u32 (including out-of-range values); LZMA2 dict 4096; unwind 42","assumes":[]}
+#[kani::proof]
+#[kani::unwind(42)]
+fn c19b_block_header_any_arm() { block_header_rt(Some(4), false, false); }
 
-//@ {"name":"c02d_block_header_rt_2","props":["C02","C03"],"tier":"thorough","obligation":"C02-D","timeout":3600,"mem_gb":18,"functions":["xz::writer::XZWriter::new","xz::writer::XZWriter::write_block_header","xz::reader::BlockHeader::parse"],"bounds":"two pre-filters, each type symbolic, property any valid u32; dict_size in [4096, 3 GiB]; unwind 42","assumes":["filter parameters inside their documented ranges"]}
+//@ {"name":"c02d_block_header_rt_x86","props":["C02","C03"],"tier":"thorough","obligation":"C02-D","timeout":1800,"mem_gb":9,"functions":["xz::writer::XZWriter::new","xz::writer::XZWriter::write_block_header","xz::reader::BlockHeader::parse"],"bounds":"one BCJ x86 pre-filter, property any VALID u32 (delta 1..=256 / BCJ offset aligned); LZMA2 dict 4096; unwind 42","assumes":["filter parameter inside its documented range"]}
 #[kani::proof]
 #[kani::unwind(42)]
-fn c02d_block_header_rt_2() { block_header_rt(2, true); }
+fn c02d_block_header_rt_x86() { block_header_rt(Some(1), true, false); }
+//@ {"name":"c19b_block_header_any_x86","props":["C19"],"tier":"thorough","obligation":"C19-B","timeout":1800,"mem_gb":9,"functions":["xz::writer::XZWriter::new","xz::writer::XZWriter::write_block_header","xz::reader::BlockHeader::parse"],"bounds":"one BCJ x86 pre-filter, property ANY u32 (including out-of-range values); LZMA2 dict 4096; unwind 42","assumes":[]}
+#[kani::proof]
+#[kani::unwind(42)]
+fn c19b_block_header_any_x86() { block_header_rt(Some(1), false, false); }
+
+//@ {"name":"c02d_block_header_rt_ia64","props":["C02","C03"],"tier":"thorough","obligation":"C02-D","timeout":1800,"mem_gb":9,"functions":["xz::writer::XZWriter::new","xz::writer::XZWriter::write_block_header","xz::reader::BlockHeader::parse"],"bounds":"one BCJ IA-64 pre-filter, property any VALID u32 (delta 1..=256 / BCJ offset aligned); LZMA2 dict 4096; unwind 42","assumes":["filter parameter inside its documented range"]}
+#[kani::proof]
+#[kani::unwind(42)]
+fn c02d_block_header_rt_ia64() { block_header_rt(Some(3), true, false); }
+//@ {"name":"c19b_block_header_any_ia64","props":["C19"],"tier":"thorough","obligation":"C19-B","timeout":1800,"mem_gb":9,"functions":["xz::writer::XZWriter::new","xz::writer::XZWriter::write_block_header","xz::reader::BlockHeader::parse"],"bounds":"one BCJ IA-64 pre-filter, property ANY u32 (including out-of-range values); LZMA2 dict 4096; unwind 42","assumes":[]}
+#[kani::proof]
+#[kani::unwind(42)]
+fn c19b_block_header_any_ia64() { block_header_rt(Some(3), false, false); }
+
+//@ {"name":"c02d_block_header_rt_thumb","props":["C02","C03"],"tier":"thorough","obligation":"C02-D","timeout":1800,"mem_gb":9,"functions":["xz::writer::XZWriter::new","xz::writer::XZWriter::write_block_header","xz::reader::BlockHeader::parse"],"bounds":"one BCJ ARM-Thumb pre-filter, property any VALID u32 (delta 1..=256 / BCJ offset aligned); LZMA2 dict 4096; unwind 42","assumes":["filter parameter inside its documented range"]}
+#[kani::proof]
+#[kani::unwind(42)]
+fn c02d_block_header_rt_thumb() { block_header_rt(Some(5), true, false); }
+//@ {"name":"c19b_block_header_any_thumb","props":["C19"],"tier":"thorough","obligation":"C19-B","timeout":1800,"mem_gb":9,"functions":["xz::writer::XZWriter::new","xz::writer::XZWriter::write_block_header","xz::reader::BlockHeader::parse"],"bounds":"one BCJ ARM-Thumb pre-filter, property ANY u32 (including out-of-range values); LZMA2 dict 4096; unwind 42","assumes":[]}
+#[kani::proof]
+#[kani::unwind(42)]
+fn c19b_block_header_any_thumb() { block_header_rt(Some(5), false, false); }
+
+//@ {"name":"c02d_block_header_rt_riscv","props":["C02","C03"],"tier":"thorough","obligation":"C02-D","timeout":1800,"mem_gb":9,"functions":["xz::writer::XZWriter::new","xz::writer::XZWriter::write_block_header","xz::reader::BlockHeader::parse"],"bounds":"one BCJ RISC-V pre-filter, property any VALID u32 (delta 1..=256 / BCJ offset aligned); LZMA2 dict 4096; unwind 42","assumes":["filter parameter inside its documented range"]}
+#[kani::proof]
+#[kani::unwind(42)]
+fn c02d_block_header_rt_riscv() { block_header_rt(Some(8), true, false); }
+//@ {"name":"c19b_block_header_any_riscv","props":["C19"],"tier":"thorough","obligation":"C19-B","timeout":1800,"mem_gb":9,"functions":["xz::writer::XZWriter::new","xz::writer::XZWriter::write_block_header","xz::reader::BlockHeader::parse"],"bounds":"one BCJ RISC-V pre-filter, property ANY u32 (including out-of-range values); LZMA2 dict 4096; unwind 42","assumes":[]}
+#[kani::proof]
+#[kani::unwind(42)]
+fn c19b_block_header_any_riscv() { block_header_rt(Some(8), false, false); }
+
+//@ {"name":"c02d_block_header_rt_ppc","props":["C02","C03"],"tier":"thorough","obligation":"C02-D","timeout":1800,"mem_gb":9,"functions":["xz::writer::XZWriter::new","xz::writer::XZWriter::write_block_header","xz::reader::BlockHeader::parse"],"bounds":"one BCJ PowerPC pre-filter, property any VALID u32 (delta 1..=256 / BCJ offset aligned); LZMA2 dict 4096; unwind 42","assumes":["filter parameter inside its documented range"]}
+#[kani::proof]
+#[kani::unwind(42)]
+fn c02d_block_header_rt_ppc() { block_header_rt(Some(2), true, false); }
+//@ {"name":"c19b_block_header_any_ppc","props":["C19"],"tier":"thorough","obligation":"C19-B","timeout":1800,"mem_gb":9,"functions":["xz::writer::XZWriter::new","xz::writer::XZWriter::write_block_header","xz::reader::BlockHeader::parse"],"bounds":"one BCJ PowerPC pre-filter, property ANY u32 (including out-of-range values); LZMA2 dict 4096; unwind 42","assumes":[]}
+#[kani::proof]
+#[kani::unwind(42)]
+fn c19b_block_header_any_ppc() { block_header_rt(Some(2), false, false); }
+
+//@ {"name":"c02d_block_header_rt_sparc","props":["C02","C03"],"tier":"thorough","obligation":"C02-D","timeout":1800,"mem_gb":9,"functions":["xz::writer::XZWriter::new","xz::writer::XZWriter::write_block_header","xz::reader::BlockHeader::parse"],"bounds":"one BCJ SPARC pre-filter, property any VALID u32 (delta 1..=256 / BCJ offset aligned); LZMA2 dict 4096; unwind 42","assumes":["filter parameter inside its documented range"]}
+#[kani::proof]
+#[kani::unwind(42)]
+fn c02d_block_header_rt_sparc() { block_header_rt(Some(6), true, false); }
+//@ {"name":"c19b_block_header_any_sparc","props":["C19"],"tier":"thorough","obligation":"C19-B","timeout":1800,"mem_gb":9,"functions":["xz::writer::XZWriter::new","xz::writer::XZWriter::write_block_header","xz::reader::BlockHeader::parse"],"bounds":"one BCJ SPARC pre-filter, property ANY u32 (including out-of-range values); LZMA2 dict 4096; unwind 42","assumes":[]}
+#[kani::proof]
+#[kani::unwind(42)]
+fn c19b_block_header_any_sparc() { block_header_rt(Some(6), false, false); }
+
+//@ {"name":"c02d_block_header_rt_arm64","props":["C02","C03"],"tier":"thorough","obligation":"C02-D","timeout":1800,"mem_gb":9,"functions":["xz::writer::XZWriter::new","xz::writer::XZWriter::write_block_header","xz::reader::BlockHeader::parse"],"bounds":"one BCJ ARM64 pre-filter, property any VALID u32 (delta 1..=256 / BCJ offset aligned); LZMA2 dict 4096; unwind 42","assumes":["filter parameter inside its documented range"]}
+#[kani::proof]
+#[kani::unwind(42)]
+fn c02d_block_header_rt_arm64() { block_header_rt(Some(7), true, false); }
+//@ {"name":"c19b_block_header_any_arm64","props":["C19"],"tier":"thorough","obligation":"C19-B","timeout":1800,"mem_gb":9,"functions":["xz::writer::XZWriter::new","xz::writer::XZWriter::write_block_header","xz::reader::BlockHeader::parse"],"bounds":"one BCJ ARM64 pre-filter, property ANY u32 (including out-of-range values); LZMA2 dict 4096; unwind 42","assumes":[]}
+#[kani::proof]
+#[kani::unwind(42)]
+fn c19b_block_header_any_arm64() { block_header_rt(Some(7), false, false); }
 
 // C19: more than three pre-filters are refused, three are accepted.
 //@ {"name":"c19b_filter_count_limit","props":["C19","C02"],"obligation":"C19-B","timeout":600,"functions":["xz::writer::XZWriter::new"],"bounds":"0..=5 delta pre-filters (count symbolic)","assumes":[]}
@@ -225,12 +296,15 @@ fn c18a_block_size_clamp() {
 }
 
 // C02-E / C03-B: index + footer for 0 or 1 records: bytes parse back to the same records, backward size = index size.
-fn index_footer_rt(nrec: usize) {
-    let ct = any_check();
+fn index_footer_rt(nrec: usize, small: bool) {
+    let ct = ck(1);
     let mut w = XZWriter::new(Sink::<48>::new(), opts(ct, 4096)).unwrap();
     let u: u64 = kani::any();
     let v: u64 = kani::any();
     kani::assume(u >= 1 && u <= u64::MAX / 2 && v <= u64::MAX / 2);
+    if small {
+        kani::assume(u < (1 << 14) && v < (1 << 14)); // at most two-byte multibyte integers
+    }
     if nrec == 1 {
         w.index_records.push(IndexRecord { unpadded_size: u, uncompressed_size: v });
     }
@@ -258,7 +332,7 @@ fn index_footer_rt(nrec: usize) {
     assert!((backward as usize + 1) * 4 == index_len, "C03-B: backward size must describe the index size");
     assert!(flags[0] == 0 && flags[1] == ct as u8);
     assert!(bytes[len - 2] == b'Y' && bytes[len - 1] == b'Z');
-    kani::cover!(nrec == 1 && u > (1 << 56), "nine-byte multibyte integer in a record");
+    kani::cover!(nrec == 1 && (small || u > (1 << 56)), "record present (nine-byte integer in the full-width variant)");
     kani::cover!(true, "end reached");
     core::mem::forget(w);
 }
@@ -266,19 +340,24 @@ fn index_footer_rt(nrec: usize) {
 //@ {"name":"c02e_index_footer_rt_0","props":["C02","C03"],"obligation":"C02-E","timeout":1200,"mem_gb":9,"functions":["xz::writer::XZWriter::write_index","xz::writer::XZWriter::write_stream_footer","xz::reader::Index::parse","xz::reader::StreamFooter::parse"],"bounds":"no records; check type symbolic; unwind 12","assumes":[]}
 #[kani::proof]
 #[kani::unwind(12)]
-fn c02e_index_footer_rt_0() { index_footer_rt(0); }
+fn c02e_index_footer_rt_0() { index_footer_rt(0, true); }
 
-//@ {"name":"c02e_index_footer_rt_1","props":["C02","C03"],"obligation":"C02-E","timeout":2400,"mem_gb":13,"functions":["xz::writer::XZWriter::write_index","xz::writer::XZWriter::write_stream_footer","xz::reader::Index::parse","xz::reader::StreamFooter::parse"],"bounds":"one record, unpadded size any value in [1, 2^63), uncompressed size any value < 2^63; check type symbolic; unwind 12","assumes":[]}
+//@ {"name":"c02e_index_footer_rt_1_small","props":["C02","C03"],"obligation":"C02-E","timeout":1800,"mem_gb":9,"functions":["xz::writer::XZWriter::write_index","xz::writer::XZWriter::write_stream_footer","xz::reader::Index::parse","xz::reader::StreamFooter::parse"],"bounds":"one record, unpadded size any value in [1, 2^14), uncompressed size any value < 2^14 (1-2 byte multibyte integers); check type CRC32; unwind 12","assumes":[]}
 #[kani::proof]
 #[kani::unwind(12)]
-fn c02e_index_footer_rt_1() { index_footer_rt(1); }
+fn c02e_index_footer_rt_1_small() { index_footer_rt(1, true); }
+
+//@ {"name":"c02e_index_footer_rt_1","props":["C02","C03"],"tier":"thorough","obligation":"C02-E","timeout":3600,"mem_gb":13,"functions":["xz::writer::XZWriter::write_index","xz::writer::XZWriter::write_stream_footer","xz::reader::Index::parse","xz::reader::StreamFooter::parse"],"bounds":"one record, unpadded size any value in [1, 2^63), uncompressed size any value < 2^63; check type symbolic; unwind 12","assumes":[]}
+#[kani::proof]
+#[kani::unwind(12)]
+fn c02e_index_footer_rt_1() { index_footer_rt(1, false); }
 
 // C02-F: a writer that is finished without any write produces a stream its own reader decodes to zero bytes.
-//@ {"name":"c02f_xz_empty_file","props":["C02","C03","C19"],"obligation":"C02-F","timeout":2400,"mem_gb":13,"functions":["xz::writer::XZWriter::new","xz::writer::XZWriter::finish","xz::reader::XZReader::read","xz::reader::XZReader::prepare_next_block","xz::reader::XZReader::parse_index_and_footer"],"bounds":"no write call; check type symbolic over None/CRC32/CRC64; unwind 14","assumes":[]}
+//@ {"name":"c02f_xz_empty_file","props":["C02","C03","C19"],"obligation":"C02-F","timeout":2400,"mem_gb":13,"functions":["xz::writer::XZWriter::new","xz::writer::XZWriter::finish","xz::reader::XZReader::read","xz::reader::XZReader::prepare_next_block","xz::reader::XZReader::parse_index_and_footer"],"bounds":"no write call; check type CRC32 (concrete); unwind 14","assumes":[]}
 #[kani::proof]
 #[kani::unwind(14)]
 fn c02f_xz_empty_file() {
-    let ct = any_check();
+    let ct = ck(1);
     let w = XZWriter::new(Sink::<96>::new(), opts(ct, 4096)).unwrap();
     let sink = w.finish();
     assert!(sink.is_ok());
@@ -289,15 +368,14 @@ fn c02f_xz_empty_file() {
     let mut out = [0u8; 4];
     let n = r.read(&mut out);
     assert!(matches!(n, Ok(0)), "C02-F: empty XZ file written by XZWriter is not decoded to empty by XZReader");
-    kani::cover!(ct as u8 == 4, "crc64");
     core::mem::forget(r);
 }
 
 // ---------------------------------------------------------------------------------------------- block accounting
 
 struct StubStage {
-    out: SharedWriter<Sink<64>>,
-    tail: usize,
+    counter: Rc<Cell<u64>>,
+    tail: u64,
 }
 
 impl Write for StubStage {
@@ -306,22 +384,21 @@ impl Write for StubStage {
 }
 
 impl FinishableWriter for StubStage {
-    fn finish(mut self: Box<Self>) -> Result<()> {
-        let z = [0u8; 16];
-        let n = self.tail;
-        self.out.write_all(&z[..n])
+    // "emits" `tail` compressed bytes: only the shared byte counter is advanced (writing a symbolic number of bytes
+    // into the sink turns every later sink access into an array-theory problem: measured 10 GB / > 6 min)
+    fn finish(self: Box<Self>) -> Result<()> {
+        self.counter.set(self.counter.get() + self.tail);
+        Ok(())
     }
 }
 
 // C03-A (second half): finish_current_block records unpadded size = header + compressed data + check (xz-file-format
 // 4.3), pads the block to a multiple of four and records the uncompressed byte count.
-//@ {"name":"c03a_unpadded_size_accounting","props":["C03","C02"],"obligation":"C03-A","timeout":1800,"mem_gb":13,"functions":["xz::writer::XZWriter::finish_current_block","xz::writer::XZWriter::add_padding","xz::writer::XZWriter::write_block_checksum","xz::writer::XZWriter::get_checksum_size"],"bounds":"block header size in {12,16,20} (symbolic), compressed payload 1..=9 bytes (symbolic) produced by a stub stage on finish, check type CRC32/CRC64/None (symbolic), uncompressed count any u64 < 2^62","assumes":["the LZMA2 stage is replaced by a stub that emits `tail` bytes on finish (the real stage is not executable under CBMC)"],"stubs":["FinishableWriter stage stub"]}
+//@ {"name":"c03a_unpadded_size_accounting","props":["C03","C02"],"obligation":"C03-A","timeout":1800,"mem_gb":13,"functions":["xz::writer::XZWriter::finish_current_block","xz::writer::XZWriter::add_padding","xz::writer::XZWriter::write_block_checksum","xz::writer::XZWriter::get_checksum_size"],"bounds":"block header size in {12,16,20} (symbolic), compressed payload 1..=9 bytes (symbolic) produced by a stub stage on finish, check type CRC32 (concrete), uncompressed count any u64 < 2^62","assumes":["the LZMA2 stage is replaced by a stub that emits `tail` bytes on finish (the real stage is not executable under CBMC)"],"stubs":["FinishableWriter stage stub"]}
 #[kani::proof]
 #[kani::unwind(12)]
 fn c03a_unpadded_size_accounting() {
-    let k: u8 = kani::any();
-    kani::assume(k < 3);
-    let ct = match k { 0 => CheckType::None, 1 => CheckType::Crc32, _ => CheckType::Crc64 };
+    let ct = ck(1);
     let mut w = XZWriter::new(Sink::<64>::new(), opts(ct, 4096)).unwrap();
     let hdr: u64 = kani::any();
     kani::assume(hdr == 12 || hdr == 16 || hdr == 20);
@@ -330,15 +407,11 @@ fn c03a_unpadded_size_accounting() {
     let unc: u64 = kani::any();
     kani::assume(unc < (1 << 62));
     // state as left by prepare_next_block: stream header (12) and block header (hdr) are on the wire
-    let pad = [0u8; 32];
-    w.writer.write_all(&pad[..(12 + hdr as usize)]).unwrap();
+    w.compressed_bytes_written.set(12 + hdr);
     let block_start_on_wire = 12u64;
     w.current_block_start_pos = block_start_on_wire; // where the block (its header) begins
     w.block_uncompressed_size = unc;
-    w.writer = Box::new(StubStage {
-        out: SharedWriter { inner: Rc::clone(&w.original_writer), compressed_bytes_written: Rc::clone(&w.compressed_bytes_written) },
-        tail,
-    });
+    w.writer = Box::new(StubStage { counter: Rc::clone(&w.compressed_bytes_written), tail: tail as u64 });
     assert!(w.finish_current_block().is_ok());
     let total = w.compressed_bytes_written.get();
     let rec = &w.index_records[0];
@@ -403,12 +476,12 @@ fn c18a_xz_block_size_respected() {
 
 // C03-A (first half): prepare_next_block must remember where the block STARTS (before its header), because the index
 // records header + compressed data + check as the block's unpadded size.
-//@ {"name":"c03a_block_start_before_header","props":["C03","C02"],"obligation":"C03-A","timeout":2400,"mem_gb":13,"stubbing":true,"functions":["xz::writer::XZWriter::prepare_next_block","xz::writer::XZWriter::write_block_header","enc::lzma2_writer::LZMA2Writer::new"],"bounds":"no pre-filter, dict 4096, check type symbolic over None/CRC32/CRC64; unwind 42","assumes":["LZMAEncoder::new stubbed (verif_cheap_encoder)"],"stubs":["LZMAEncoder::new -> verif_cheap_encoder"]}
+//@ {"name":"c03a_block_start_before_header","props":["C03","C02"],"obligation":"C03-A","timeout":2400,"mem_gb":13,"stubbing":true,"functions":["xz::writer::XZWriter::prepare_next_block","xz::writer::XZWriter::write_block_header","enc::lzma2_writer::LZMA2Writer::new"],"bounds":"no pre-filter, dict 4096, check type CRC32 (concrete); unwind 42","assumes":["LZMAEncoder::new stubbed (verif_cheap_encoder)"],"stubs":["LZMAEncoder::new -> verif_cheap_encoder"]}
 #[kani::proof]
 #[kani::unwind(42)]
 #[kani::stub(crate::enc::encoder::LZMAEncoder::new, crate::enc::encoder::verif_stubs_enc::verif_cheap_encoder)]
 fn c03a_block_start_before_header() {
-    let ct = any_check();
+    let ct = ck(1);
     let mut w = XZWriter::new(Sink::<32>::new(), opts(ct, 4096)).unwrap();
     assert!(w.write_stream_header().is_ok());
     let before = w.compressed_bytes_written.get();
@@ -417,5 +490,45 @@ fn c03a_block_start_before_header() {
     assert!(after - before == 12, "block header for a single LZMA2 filter is 12 bytes");
     assert!(w.current_block_start_pos == before, "C03-A: block start recorded after the block header: the index's unpadded size will omit the header");
     kani::cover!(true, "end reached");
+    core::mem::forget(w);
+}
+
+// C19-B: XZWriter::new accepts a pre-filter exactly when its parameter is inside the documented range (delta distance
+// 1..=256, BCJ start offset aligned): out-of-range values are refused at construction, never written into a header.
+//@ {"name":"c19b_prefilter_validation","props":["C19","C02"],"obligation":"C19-B","timeout":900,"functions":["xz::writer::XZWriter::new"],"bounds":"filter type symbolic over the 9 pre-filter types; property any u32","assumes":[]}
+#[kani::proof]
+#[kani::unwind(6)]
+fn c19b_prefilter_validation() {
+    let k: u8 = kani::any();
+    kani::assume(k < 9);
+    let ft = ftype(k);
+    let p: u32 = kani::any();
+    let mut o = opts(CheckType::None, 4096);
+    o.filters.push(FilterConfig { filter_type: ft, property: p });
+    let r = XZWriter::new(Sink::<1>::new(), o);
+    assert!(r.is_ok() == filter_valid(ft, p), "C19-B: pre-filter parameter accepted/refused against its documented range");
+    kani::cover!(r.is_err() && k == 0, "delta distance refused");
+    kani::cover!(r.is_err() && k == 3, "unaligned IA-64 offset refused");
+    kani::cover!(r.is_ok() && p != 0, "valid non-default parameter accepted");
+    if let Ok(w) = r { core::mem::forget(w); }
+}
+
+// C05-D: a sink that accepts short writes: the XZ writer's count of compressed bytes (it drives block padding and the
+// index) must equal the bytes that really reached the sink, and the stream header must arrive complete and in order.
+//@ {"name":"c05d_xz_writer_short_write_counter","props":["C05","C02"],"obligation":"C05-D","timeout":900,"functions":["xz::writer::XZWriter::write_stream_header","xz::writer::SharedWriter::write","no_std::Write::write_all"],"bounds":"sink accepts 1..=12 bytes per call (symbolic) and reports Interrupted once at a symbolic call index; check type CRC32; unwind 16","assumes":[]}
+#[kani::proof]
+#[kani::unwind(16)]
+fn c05d_xz_writer_short_write_counter() {
+    let mut sink = FaultySink::<16>::new();
+    sink.chunk = kani::any();
+    kani::assume(sink.chunk >= 1 && sink.chunk <= 12);
+    sink.intr_at = kani::any();
+    let mut w = XZWriter::new(sink, opts(ck(1), 4096)).unwrap();
+    assert!(w.write_stream_header().is_ok(), "C05-D: short writes / Interrupted must be retried");
+    let (bytes, len) = { let s = w.original_writer.borrow(); (s.buf, s.len) };
+    assert!(len == 12, "C05-D: stream header incomplete after short writes");
+    assert!(w.compressed_bytes_written.get() == 12, "C05-D: compressed-byte counter disagrees with the bytes the sink accepted");
+    assert!(bytes[0] == 0xFD && bytes[5] == 0 && bytes[7] == 1);
+    kani::cover!(w.original_writer.borrow().calls > 4, "several short writes");
     core::mem::forget(w);
 }
